@@ -59,6 +59,17 @@ def f(xs: list[fp.Real], y: fp.Real) -> tuple[fp.Real, list[fp.Real]]:
     return (t, xs)
 ''', 'f', [('list', [1, 2]), 'real'], ['isolation'])
 
+prog('branch_then_write', '''
+@fp.fpy
+def f(xs: list[fp.Real], y: fp.Real) -> list[fp.Real]:
+    if y > xs[0]:
+        xs[0] = y
+    else:
+        xs[0] = xs[0] - y
+    t = [v for v in xs]
+    return t
+''', 'f', [('list', [1, 2]), 'real'], ['isolation', 'history'])
+
 prog('context_sensitive', '''
 @fp.fpy
 def f(x: fp.Real, y: fp.Real) -> fp.Real:
@@ -83,7 +94,7 @@ def f(x: fp.Real, y: fp.Real) -> fp.Real:
 
 
 def _programs(tier):
-    names = ('helper_mutates_list', 'loop_carried_tuple', 'sem_callee_contexts', 'copy_across_loop', 'const_under_contexts', 'sem_minmax_literal_zero')
+    names = ('helper_mutates_list', 'loop_carried_tuple', 'sem_callee_contexts', 'copy_across_loop', 'const_under_contexts', 'sem_minmax_literal_zero', 'copy_in_branch', 'shortcircuit')
     base = [p for p in corpus.P if p['name'] in names or ('alias' in p['tags'] and 'no_ref' not in p['tags'] and 'list' in p['tags'])][:10]
     return EXTRA + base
 
@@ -121,12 +132,16 @@ def containers(v, out):
     return out
 
 
-def history(f, ns, args_builder, rt_call):
+def history(f, ns, args_builder, rt_call0):
     """things evaluated before the call under test; returns labels"""
     import fpy2 as fp
     from fpy2 import strategies as st
     labs = []
     others = [v for k, v in ns.items() if isinstance(v, fp.Function) and v is not f]
+
+    def rt_call(g, a, c):
+        # a loop counter can stall under a narrow context: an evaluation of the history that does not finish is skipped
+        return tv.with_timeout(lambda: rt_call0(g, a, c), 10)
     # functions of OTHER programs that carry the same name (every corpus entry is called `f`): a cache keyed by name would hand
     # their code to the call under test
     for q in _programs('quick'):
@@ -139,23 +154,23 @@ def history(f, ns, args_builder, rt_call):
             if g.name != f.name:
                 continue
             rt_call(g, args_builder(), fp.MPSFloatContext(4, -3)); labs.append('same-named function of program %s' % q['name'])
-        except Exception:  # noqa
+        except (Exception, tv.TransformTimeout):  # noqa
             pass
-    for C in (fp.MPFloatContext(1), fp.MPSFloatContext(3, -2, fp.RM.RTN)):
+    for C in (fp.MPFloatContext(3, fp.RM.RTP), fp.MPSFloatContext(3, -2, fp.RM.RTN)):
         try:
             rt_call(f, args_builder(), C); labs.append('same function under %r' % (C,))
-        except Exception:  # noqa
+        except (Exception, tv.TransformTimeout):  # noqa
             pass
     for g in others[:2]:
         try:
             rt_call(g, args_builder()[:len(g.args)], fp.MPFloatContext(2, fp.RM.RTZ)); labs.append('other function %s' % g.name)
-        except Exception:  # noqa
+        except (Exception, tv.TransformTimeout):  # noqa
             pass
     for nm, th in (('simplify', lambda: st.simplify(f)), ('unroll_for', lambda: st.unroll_for(f, None, 1)), ('monomorphize', lambda: st.monomorphize(f, fp.MPSFloatContext(3, -2)))):
         try:
             h = th()
-            rt_call(h, args_builder(), None if nm == 'monomorphize' else fp.MPFloatContext(2)); labs.append('transformed copy: ' + nm)
-        except Exception:  # noqa
+            rt_call(h, args_builder(), None if nm == 'monomorphize' else fp.MPFloatContext(3)); labs.append('transformed copy: ' + nm)
+        except (Exception, tv.TransformTimeout):  # noqa
             pass
     return labs
 
@@ -200,8 +215,8 @@ def run_task(task):
             for a in args:
                 containers(a, arg_lists)
             try:
-                r0 = f(*args, ctx=C)
-            except Exception as ex:  # noqa   the function does not return here: nothing to compare
+                r0 = tv.with_timeout(lambda: f(*args, ctx=C), 30)
+            except Exception as ex:  # noqa   the function does not return here (raises, or a counter stalls under this context): nothing to compare
                 continue
             e.cover('returns', True)
             after = [snapshot(a) for a in args]
@@ -223,7 +238,7 @@ def run_task(task):
             if any(x.startswith('same-named') for x in labs):
                 e.cover('same-named-function-in-history', True)
             try:
-                r1 = f(*list(sa.build()), ctx=C)
+                r1 = tv.with_timeout(lambda: f(*list(sa.build()), ctx=C), 60)
             except Exception as ex:  # noqa
                 e.require(False, info={'context': cname, 'after the history the call raised': repr(ex)[:120], 'history': labs}, tag='history'); continue
             try:
